@@ -16,6 +16,7 @@ pub(crate) fn derive(input: &DeriveInput) -> TokenStream {
         Ok(fields) => fields,
         Err(err) => return err.to_compile_error(),
     };
+    let names = crate::object_view::field_names(&fields);
 
     quote! {
         impl #impl_generics ::liquid::ValueView for #ident #ty_generics #where_clause {
@@ -48,7 +49,7 @@ pub(crate) fn derive(input: &DeriveInput) -> TokenStream {
             fn to_value(&self) -> ::liquid::model::Value {
                 let mut object = ::liquid::model::Object::new();
                 #(
-                    object.insert(stringify!(#fields).into(), ::liquid::model::ValueView::to_value(&self.#fields));
+                    object.insert(#names.into(), ::liquid::model::ValueView::to_value(&self.#fields));
                 )*
                 ::liquid::model::Value::Object(object)
             }
@@ -74,6 +75,7 @@ pub(crate) fn core_derive(input: &DeriveInput) -> TokenStream {
         Ok(fields) => fields,
         Err(err) => return err.to_compile_error(),
     };
+    let names = crate::object_view::field_names(&fields);
 
     quote! {
         impl #impl_generics ::liquid_core::ValueView for #ident #ty_generics #where_clause {
@@ -106,7 +108,7 @@ pub(crate) fn core_derive(input: &DeriveInput) -> TokenStream {
             fn to_value(&self) -> ::liquid_core::model::Value {
                 let mut object = ::liquid_core::model::Object::new();
                 #(
-                    object.insert(stringify!(#fields).into(), ::liquid_core::model::ValueView::to_value(&self.#fields));
+                    object.insert(#names.into(), ::liquid_core::model::ValueView::to_value(&self.#fields));
                 )*
                 ::liquid_core::model::Value::Object(object)
             }
